@@ -243,7 +243,7 @@ func TestRuleHistories(t *testing.T) {
 		for k, v := range map[string]bool{
 			"noncanonical-form-blocked": ob.noncanonBlocked, "subnet-edge-blocked": ob.edgeBlocked, "subnet-edge-free": ob.edgeFree,
 			"reopen-nonempty": reopenNE, "explicit-reopen": reopens > 1, "write-failure": failedOK > 0, "unblock-in-other-spelling": ob.ambiguous, "call-refused-by-gater": ob.refusedCalls > 0, "noncidr-mask": w.nonCIDR(),
-			"v6net-vs-v4-unspecified": ob.unspecified, "no-datastore": !useDS,
+			"v6net-vs-v4-unspecified": ob.unspecified, "no-datastore": !useDS, "circuit-addr-via-blocked-relay-ip-refused": ob.relayBlocked,
 		} {
 			if v {
 				labels = append(labels, k)
